@@ -119,6 +119,26 @@ macro_rules! owned_reply {
     }};
 }
 
+pub const SUB_IDS: [u32; 8] = [1, 127, 128, 16383, 16384, 2097151, 2097152, 268435455];
+pub const N_LEGAL_FRONT: u8 = 16;
+fn legal_front(decoy: u8) -> Vec<Prop> {
+    if decoy < 7 {
+        return vec![];
+    }
+    let sub = |v: u32| Prop { id: 0x0B, val: PVal::Var(v) };
+    match decoy - 7 {
+        k @ 0..=7 => vec![sub(SUB_IDS[k as usize])],
+        8 => vec![sub(16384), sub(5)],
+        9 => vec![Prop { id: 0x01, val: PVal::Byte(0) }],
+        10 => vec![Prop { id: 0x01, val: PVal::Byte(1) }],
+        11 => vec![Prop { id: 0x02, val: PVal::U32(0) }],
+        12 => vec![Prop { id: 0x02, val: PVal::U32(u32::MAX) }],
+        13 => vec![Prop { id: 0x03, val: PVal::Str(vec![]) }],
+        14 => vec![Prop { id: 0x26, val: PVal::Pair(vec![], vec![]) }],
+        _ => vec![Prop { id: 0x02, val: PVal::U32(0x0908_0908) }, sub(0x0009_0808), Prop { id: 0x01, val: PVal::Byte(1) }, Prop { id: 0x03, val: PVal::Str(vec![9, 0, 1, 8]) }],
+    }
+}
+
 pub fn eval(c: &Case) -> CaseOut {
     guarded("C20", || {
         let mut viol = Vec::new();
@@ -153,8 +173,12 @@ pub fn eval(c: &Case) -> CaseOut {
             }
         }
         const DECOYS: [u8; 7] = [0, 0x03, 0x1A, 0x1C, 0x1F, 0x12, 0x15];
-        if c.decoy != 0 {
+        if c.decoy != 0 && c.decoy < 7 {
             props.insert(0, Prop { id: DECOYS[c.decoy as usize % 7], val: PVal::Str(b"decoy/topic".to_vec()) });
+        }
+        // properties of every other value type that MQTT 5 allows on a PUBLISH, at their boundary values, in front
+        for p in legal_front(c.decoy).into_iter().rev() {
+            props.insert(0, p);
         }
         let request = SPacket::Publish {
             dup: c.in_flags & 2 != 0 && c.in_qos > 0,
@@ -230,7 +254,7 @@ pub fn eval(c: &Case) -> CaseOut {
         };
         let class;
         match (&topic, result) {
-            (_, Owned::Err(e)) if e == "request-not-delivered" && c.decoy >= 2 => {
+            (_, Owned::Err(e)) if e == "request-not-delivered" && c.decoy >= 2 && c.decoy < 7 => {
                 // the request carries a property MQTT 5 does not allow on a PUBLISH: refusing it is the client's right
                 class = 9;
             }
@@ -389,6 +413,18 @@ fn cases(tier: Tier) -> Vec<Case> {
                 for position in 0..4u8 {
                     for owned in [None, Some(4usize), Some(6)] {
                         v.push(Case { topic_len: t, corr_len: cl, position, in_qos: 1, add_user_props: 1, owned, topic_kind: 0, same_topic: false, in_flags: 0, decoy });
+                    }
+                }
+            }
+        }
+    }
+    // every other legal PUBLISH property type, at its boundary values, in front of the two that matter
+    for decoy in 7..7 + N_LEGAL_FRONT {
+        for t in [Some(1usize), Some(20)] {
+            for cl in [None, Some(0usize), Some(4)] {
+                for position in 0..4u8 {
+                    for owned in [None, Some(4usize)] {
+                        v.push(Case { topic_len: t, corr_len: cl, position, in_qos: (decoy % 3).min(1), add_user_props: decoy % 2, owned, topic_kind: 0, same_topic: false, in_flags: 0, decoy });
                     }
                 }
             }
